@@ -85,6 +85,11 @@ CHECKS = {
    note=NOTE + " C07: universality over programs = every code list the checker accepts; that the compiler's output is accepted is established per program of the run (generated programs + all test-table inputs), not as a theorem about compile. The split-frame model refining the real flat stack is tied by run-level correspondence. Opcodes outside Model/VM.v (NEWMAP, GETOK, DELETE, STRUCT, GLOBALSTRUCT, NEWSTRUCT, SETMETHOD) have hand-read effects.",
    technique="Coq proof of soundness of a bytecode verifier (type-safety style preservation over the VM step model, mutual induction on fuel for calls) + verifier run by vm_compute on real compiler output + differential",
    ref="DESIGN.md section 5 C07"),
+ "C09": dict(
+   text="Theorems over the call part of Model/VM.v (call_fn / exec mutual fixpoint), for every function object, argument list, caller operand stack `lo`, heap, fuel and oracle: c09_call (slots = arguments assigned the declared parameter types in order then nil locals; the callee starts on an empty operand stack; the first xRets results, assigned the declared result types, land on the untouched `lo`; wrong argument count = 'incorrect args' without running the body; too few results = 'incorrect returns'; a successful call is always results ++ lo with exactly xRets results), c09_param_types (untyped constants and nil arrive converted, via the C04 theorems), c09_variadic (surplus packed into one new slice of the declared element type in order; spread passed through unchanged; too few = error), c09_depth (frame independence: running on ops ++ lo = running on ops with lo carried underneath, for every opcode, by induction on fuel -- hence any recursion depth), c09_func_wf, c09_method (receiver binding incl. method values taken earlier, on Model/Call.v). Correspondence: 875 (quick) / 10k (thorough) cases through VM.Call / VM.Func / VerifExec incl. recursion depth 400; system level: ~320 call sites per generated program vs the Go toolchain.",
+   note=NOTE + " C09: call_fn is a hand transcription of call/callReady/mkFunc (tie by correspondence); methods are proved on Model/Call.v (C19's model) because Model/VM.v has no struct objects. Seven open known findings (named constants lose untyped-ness, untyped float constants to int parameters, zero-surplus variadic is non-nil, nil receivers, f(g()) multi-value forwarding (2), callee evaluated after its arguments).",
+   technique="Coq proof over the VM call model (frame-independence by induction on fuel over the exec/call_fn mutual fixpoint, typing of parameters/results via the C04 theorems) + correspondence + differential against go build",
+   ref="DESIGN.md section 5 C09"),
  "C01": dict(
    text="C01 is claimed as the composition of the facet properties (each with its own theorems) plus a whole-program differential against the Go toolchain; the end-to-end part that is closed as a theorem is c01_expr_partial / c01_expr_eval: for every token list, variable assignment and operand value, goatlang's parse (generated table), opcode choice (generated infixMap) and operator implementations (generated from value.go) give Go's grouping and Go's int32 value. Correspondence: expression model vs implementation and vs real Go; model VM vs real VM on real compiled code; system level: generated programs of four profiles incl. multi-package layouts vs `go build`.",
    note=NOTE + " C01: no formal semantics of Go is available offline, so there is no single end-to-end theorem over whole programs (named _partial); statements, calls, containers, strings, printing, scoping and packages are decided by C02-C20; 'as the Go toolchain' in the differential means go1.23 on the same source with int := int32; fmt.Print/Sprint with several operands are outside (property statement).",
